@@ -74,6 +74,18 @@ CLAIMED = {
         note=("trusts CrossHair/z3 and NumPy inside a cell; cell contents are concrete distinct numbers; histories longer "
               "than 3, >3 fixed dimensions and size-1 list indices in assignments are outside"),
         design_ref="DESIGN.md §5 C11"),
+    "C12": dict(
+        engine="S",
+        technique="term-valued symbolic execution of the real torch aberration code (SymTensor via __torch_function__), Chebyshev/phasor expansion of cos/sin of integer angle combinations, symbolic differentiation of the executed surface, identities decided by z3 (QF_NRA)",
+        text=("bounded model checking by symbolic execution for all real alpha >= 0, azimuth, wavelength > 0 and all 25 "
+              "coefficient values (orders 1-5, separately and together): polar surface == cartesian-basis expansion, "
+              "cartesian->polar->cartesian and merge keep the surface, merge is additive in cartesian deltas, the polar and "
+              "cartesian analytic gradients equal wavelength x the derivative of the executed surface term, aliases map to "
+              "their symbols with defocus -> -C10; every query unsat"),
+        note=("real arithmetic (float32 storage rounding outside); float literals within one ulp of a small rational denote "
+              "that rational; atan2 is a fresh angle atom with r cos = x, r sin = y; the least-squares fit "
+              "(LAPACK/SVD), validators.validate_aberration_coefficients and the probe_params setter are outside"),
+        design_ref="DESIGN.md §5 C12"),
     "C14": dict(
         engine="X",
         technique="CrossHair symbolic execution of the real save()/load() skip handling on the in-memory store model; reference-model post-condition; replay on the real stores",
